@@ -804,6 +804,8 @@ class SshHostCertificateV00Base(ParsableBase, SshCertificateBase):  # pylint: di
         parser.parse_parsable('valid_principals', SshCertValidPrincipals)
 
         parser.parse_timestamp('valid_after')
+        if parser['valid_after'] is None:  # only the end of the validity period can be "forever"
+            raise InvalidValue(parser['valid_after'], cls, 'valid_after')
         parser.parse_timestamp('valid_before')
 
         parser.parse_parsable('constraints', SshCertConstraintVector)
@@ -975,6 +977,8 @@ class SshHostCertificateV01Base(ParsableBase, SshCertificateBase):  # pylint: di
         parser.parse_parsable('valid_principals', SshCertValidPrincipals)
 
         parser.parse_timestamp('valid_after')
+        if parser['valid_after'] is None:  # only the end of the validity period can be "forever"
+            raise InvalidValue(parser['valid_after'], cls, 'valid_after')
         parser.parse_timestamp('valid_before')
 
         parser.parse_parsable('critical_options', SshCertCriticalOptionVector)
